@@ -94,6 +94,8 @@ class ActorTr(ML.Tr):
             return env.vals[h]
         if isinstance(n, ast.Attribute):
             src = ast.unparse(n)
+            if src in GROUPS:
+                return Val(GROUPS[src], "Group")
             if src in env.vals:
                 return super().raw(n, env)
             b = self.val(n.value, env)
@@ -136,10 +138,10 @@ class ActorTr(ML.Tr):
                 b = self.want(self.val(a[0], env), "SB")
                 p = self.want(self.val(a[1], env), ("opt", "Rat"))
                 return Val(f"(shiftedBounds {atom(b)} {atom(p)})", "SB")
-            if isinstance(n.func, ast.Attribute) and ast.unparse(n.func.value) in GROUPS \
+            if isinstance(n.func, ast.Attribute) and self.group_of(n.func.value, env) is not None \
                     and n.func.attr == "get_target_power" and len(n.args) == 1 and not n.keywords:
                 self.is_ids(n.args[0], env)
-                t = f"{env.vals[GROUPS[ast.unparse(n.func.value)]].term}.last"
+                t = f"{env.vals[self.group_of(n.func.value, env)].term}.last"
                 return Val(t, ("opt", "Rat"), t)
             raise Unsupported(f"call {f}")
         return super().raw(n, env)
@@ -176,12 +178,21 @@ class ActorTr(ML.Tr):
         return super().cond(t, env, T, E)
 
     # ------------------------------------------------------------------------------------------ effects
-    def effect_site(self, n: ast.AST) -> bool:
+    def group_of(self, e: ast.expr, env: Env | None):
+        """The state slot of a group object: `self._set_op_power_group` / a local that names it."""
+        src = ast.unparse(e)
+        if src in GROUPS:
+            return GROUPS[src]
+        if env is not None and isinstance(e, ast.Name) and e.id in env.vals and getattr(env.vals[e.id], "ty", None) == "Group":
+            return env.vals[e.id].term
+        return None
+
+    def effect_site(self, n: ast.AST, env: Env | None = None) -> bool:
         if isinstance(n, ast.Subscript) and isinstance(n.ctx, ast.Load) and ast.unparse(n.value) == "self._system_bounds":
             return True
         if isinstance(n, ast.Call) and isinstance(n.func, ast.Attribute):
             recv, m = ast.unparse(n.func.value), n.func.attr
-            if recv in GROUPS and m in ("calculate_target_power", "get_target_power", "drop_old_proposals"):
+            if self.group_of(n.func.value, env) is not None and m in ("calculate_target_power", "get_target_power", "drop_old_proposals"):
                 return True
             if recv == "self" and m in ("_calculate_target_power", "_send_updated_target_power", "_send_reports",
                                         "_add_system_bounds_tracker"):
@@ -191,7 +202,7 @@ class ActorTr(ML.Tr):
         return False
 
     def is_site(self, n: ast.AST, env: Env) -> bool:
-        return self.effect_site(n) or super().is_site(n, env)
+        return self.effect_site(n, env) or super().is_site(n, env)
 
     def read_sb(self, env: Env, k):
         """Read `self._system_bounds[ids]`: k(env, Val) on the path where the entry exists, KeyError otherwise."""
@@ -211,15 +222,15 @@ class ActorTr(ML.Tr):
 
     def site(self, n: ast.AST, env: Env, k):
         h = f"@h{id(n)}"
-        if not self.effect_site(n):
+        if not self.effect_site(n, env):
             return super().site(n, env, k)
         if isinstance(n, ast.Subscript):
             self.is_ids(n.slice, env)
             return self.read_sb(env, lambda e, v: k(e.bind(h, v)))
         assert isinstance(n, ast.Call) and isinstance(n.func, ast.Attribute)
         recv, m = ast.unparse(n.func.value), n.func.attr
-        if recv in GROUPS:
-            slot = GROUPS[recv]
+        if self.group_of(n.func.value, env) is not None:
+            slot = self.group_of(n.func.value, env)
             st = env.vals[slot].term
             base = "op" if slot == "@op" else "reg"
             if m == "get_target_power":
@@ -301,7 +312,7 @@ class ActorTr(ML.Tr):
             v = self.val(value, env)
         except Unsupported:
             v = None
-        if v is not None and v.ty in ("Result", "Request", "Ids"):  # event payloads / the one id set: aliases
+        if v is not None and v.ty in ("Result", "Request", "Ids", "Group"):  # event payloads / the id set / a group: aliases
             return (lambda body: body), env.bind(name, v)
         return super().assign(name, value, env, others)
 
@@ -310,7 +321,7 @@ class ActorTr(ML.Tr):
         go = lambda e: self.block(rest, e, K, fa)  # noqa: E731
         if isinstance(s, ast.Expr) and not isinstance(s.value, ast.Constant) and not ML._only_logging([s]):
             v = unawait(s.value)
-            if not (self.effect_site(v) or self.callee(v) is not None):
+            if not (self.effect_site(v, env) or self.callee(v) is not None):
                 raise Unsupported(f"statement {ast.unparse(s)[:70]}")
             return go(env)  # executed as a site by `block`
         if isinstance(s, ast.Assign) and len(s.targets) == 1 and isinstance(s.targets[0], ast.Subscript):
@@ -400,9 +411,14 @@ class HandlerK(Kont):
 
 
 # ------------------------------------------------------------------------------------------------ checks
-def no_effects(fn, what: str, allow_tracker: bool = False) -> None:
-    """The function does not touch the groups, the flag, the bounds cache or the request channel."""
+def no_effects(fn, what: str, allow_tracker: bool = False, methods: dict | None = None, depth: int = 0) -> None:
+    """The function (and the private methods it calls) does not touch the groups, the flag, the bounds cache or the
+    request channel."""
     for x in ast.walk(fn):
+        if methods is not None and depth < 4 and isinstance(x, ast.Call) and isinstance(x.func, ast.Attribute) \
+                and ast.unparse(x.func.value) == "self" and x.func.attr in methods and x.func.attr not in EFFECT_METHODS \
+                and x.func.attr not in ("_send_reports",):
+            no_effects(methods[x.func.attr], f"{what} -> {x.func.attr}", allow_tracker, methods, depth + 1)
         if isinstance(x, ast.Call) and isinstance(x.func, ast.Attribute):
             m = x.func.attr
             if m in EFFECT_METHODS and not (allow_tracker and m == "_add_system_bounds_tracker"):
@@ -508,7 +524,7 @@ def generate(repo: pathlib.Path) -> str:
     out.append("/-- the cache entry written by `_add_system_bounds_tracker`. -/\n"
                f"def trackerInitBounds : Matryoshka.SystemBounds :=\n  {tr.want(tr.val(init, Env()), 'SB')}\n")
 
-    no_effects(tr.method("_send_reports"), "_send_reports")
+    no_effects(tr.method("_send_reports"), "_send_reports", methods=tr.all_methods)
 
     # _run
     tr.may_raise = True
@@ -559,7 +575,7 @@ def generate(repo: pathlib.Path) -> str:
     if set(ast.unparse(a) for a in loop.iter.args) != set(branches):
         raise Unsupported("_run: select(…) arguments differ from the branches")
     no_effects(ast.Module(body=branches["self._bounds_subscription_receiver"], type_ignores=[]),
-               "_run subscription branch", allow_tracker=True)
+               "_run subscription branch", allow_tracker=True, methods=tr.all_methods)
     if flag in ML._stores(branches["self._bounds_subscription_receiver"]):
         raise Unsupported("_run subscription branch: writes the flag")
 
